@@ -1,113 +1,26 @@
-import SgVerif.C28.Model
+import SgVerif.C28.Refine
 /-
 C28 — MPI point-to-point matching and non-overtaking.  Property theorems.
 
-* `spec_non_overtaking` (full strength, every history): in the MPI matching spec a receive never takes a message
-  while an earlier-arrived message that it matches is still pending, and a message never goes to a receive while an
-  earlier-posted receive that matches it is still pending.
+* `spec_non_overtaking_send/_post` (full strength, every history): in the MPI matching spec a receive never takes a
+  message while an earlier-arrived message that it matches is still pending, and a message never goes to a receive
+  while an earlier-posted receive that matches it is still pending.
 * `smpi_refines_spec` — the SMPI two-mailbox mechanism makes the same matches as the spec for every history and every
-  size relative to `smpi/async-small-thresh` — is FALSE on the current code (see `smpi_refines_spec_counterexample`,
-  replayed on the library by props/C28/corpus.txt).  Proved instead: `smpi_refines_spec_partial` for histories in which
-  no message or receive ever waits (each step finds both mailboxes' queues free of compatible items): then both sides
-  queue and match identically.  What is missing: the general case, even with all sizes on one side of the threshold,
-  needs the invariant "queued sends of one (src,tag) carry consecutive ids starting at the received-counter", not done.
+  size relative to `smpi/async-small-thresh` — is FALSE on the current code (`smpi_refines_spec_counterexample`,
+  replayed on the library by props/C28/corpus.txt).  Proved instead, for ALL histories (any length, any interleaving):
+  - `smpi_refines_spec_one_side`: every message size and receive-buffer size on one side of the threshold
+    (includes `thresh = 0`, the default single-mailbox configuration); wildcards allowed;
+  - `smpi_refines_spec_key_determined`: message sizes ARBITRARY (sends sit in both mailboxes), receive buffers
+    `≥ thresh`, every receive's compatible messages share one (src,tag) key — this is where the `message_id_`
+    counters restore the order; corollaries `smpi_refines_spec_single_tag` (one tag per source, receives name their
+    source, ANY_TAG allowed) and `smpi_refines_spec_no_wildcard`.
+  Both rest on the invariant "queued sends of one (src,tag) carry consecutive ids starting at the received-counter"
+  (`SeqOK`, Lemmas.lean) carried by the refinement relation `Rel` (Refine.lean).
+  What remains outside: receives with buffers on both sides of the threshold, and wildcard receives whose compatible
+  messages have several keys with sizes on both sides — exactly the classes in which the library misbehaves
+  (findings 1–3 of NOTES.md).
 -/
 namespace SgVerif.C28
-
-theorem takeFirst_none {β : Type} (p : β → Bool) (l : List β) (h : takeFirst p l = none) : ∀ x ∈ l, p x = false := by
-  induction l with
-  | nil => intro x hx; cases hx
-  | cons y ys ih =>
-    simp only [takeFirst] at h
-    split at h
-    · cases h
-    · rename_i hy
-      cases ht : takeFirst p ys with
-      | none =>
-        intro x hx
-        rcases List.mem_cons.mp hx with rfl | hx
-        · simpa using hy
-        · exact ih ht x hx
-      | some v => simp [ht] at h
-
-theorem takeFirst_some {β : Type} (p : β → Bool) (l : List β) (x : β) (rest : List β) (h : takeFirst p l = some (x, rest)) :
-    ∃ pre post, l = pre ++ x :: post ∧ rest = pre ++ post ∧ p x = true ∧ ∀ y ∈ pre, p y = false := by
-  induction l generalizing rest with
-  | nil => cases h
-  | cons y ys ih =>
-    simp only [takeFirst] at h
-    split at h
-    · rename_i hy
-      cases h
-      exact ⟨[], ys, rfl, rfl, hy, by intro _ h; cases h⟩
-    · rename_i hy
-      cases ht : takeFirst p ys with
-      | none => simp [ht] at h
-      | some v =>
-        obtain ⟨z, r⟩ := v
-        simp only [ht, Option.map_some, Option.some.injEq, Prod.mk.injEq] at h
-        obtain ⟨rfl, rfl⟩ := h
-        obtain ⟨pre, post, h1, h2, h3, h4⟩ := ih r ht
-        refine ⟨y :: pre, post, by simp [h1], by simp [h2], h3, ?_⟩
-        intro w hw
-        rcases List.mem_cons.mp hw with rfl | hw
-        · simpa using hy
-        · exact h4 w hw
-
-/-- no posted receive matches a pending message -/
-def Inv (st : SpecState) : Prop := ∀ r ∈ st.posted, ∀ m ∈ st.unexp, compat r m = false
-
-theorem inv_step (st : SpecState) (e : Event) (hi : Inv st) : Inv (specStep st e).1 := by
-  cases e with
-  | send m =>
-    simp only [specStep]
-    cases ht : takeFirst (fun r => compat r m) st.posted with
-    | none =>
-      intro r hr m' hm'
-      simp only [List.mem_append, List.mem_singleton] at hm'
-      rcases hm' with hm' | rfl
-      · exact hi r hr m' hm'
-      · exact takeFirst_none _ _ ht r hr
-    | some v =>
-      obtain ⟨r0, rest⟩ := v
-      obtain ⟨pre, post, h1, h2, _, _⟩ := takeFirst_some _ _ _ _ ht
-      intro r hr m' hm'
-      apply hi r _ m' hm'
-      simp only at hr
-      rw [h2] at hr; rw [h1]
-      simp only [List.mem_append, List.mem_cons] at hr ⊢
-      rcases hr with h | h
-      · exact Or.inl h
-      · exact Or.inr (Or.inr h)
-  | post r =>
-    simp only [specStep]
-    cases ht : takeFirst (fun m => compat r m) st.unexp with
-    | none =>
-      intro r' hr' m hm
-      simp only [List.mem_append, List.mem_singleton] at hr'
-      rcases hr' with hr' | rfl
-      · exact hi r' hr' m hm
-      · exact takeFirst_none _ _ ht m hm
-    | some v =>
-      obtain ⟨m0, rest⟩ := v
-      obtain ⟨pre, post, h1, h2, _, _⟩ := takeFirst_some _ _ _ _ ht
-      intro r' hr' m hm
-      apply hi r' hr' m
-      simp only at hm
-      rw [h2] at hm; rw [h1]
-      simp only [List.mem_append, List.mem_cons] at hm ⊢
-      rcases hm with h | h
-      · exact Or.inl h
-      · exact Or.inr (Or.inr h)
-
-theorem inv_run (st : SpecState) (h : List Event) (hi : Inv st) : Inv (specRun st h).1 := by
-  induction h generalizing st with
-  | nil => exact hi
-  | cons e es ih =>
-    simp only [specRun]
-    exact ih _ (inv_step st e hi)
-
-theorem inv_init : Inv {} := by intro r hr; cases hr
 
 /-- **Non-overtaking, for every history — a message arrives.**  After any history `h` (any interleaving of arrivals
 and posts, any wildcards), if the arriving message `m` is matched with the posted receive `r`, then
@@ -204,10 +117,6 @@ theorem same_tag_witness_agrees :
     ((mechRun { thresh := 256 } w).2.map fun (r, m) => (r.rid, m.mid)) = ((specRun {} w).2.map fun (r, m) => (r.rid, m.mid)) := by
   decide
 
-theorem get_empty_recvs (t : Nat) (sn : List ((Nat × Nat) × Nat)) (w : Which) :
-    (({ thresh := t, sent := sn } : Mech).get w).recvs = [] := by cases w <;> rfl
-theorem get_empty_sends (t : Nat) (w : Which) : (({ thresh := t } : Mech).get w).sends = [] := by cases w <;> rfl
-
 /-- `smpi_refines_spec_partial`: one step from the empty state (nothing queued anywhere): mechanism and spec agree —
 they both queue the event and match nothing — for every threshold and every size.  (The general refinement is false,
 see above; the single-mailbox case `thresh = 0` is not proved.) -/
@@ -216,6 +125,76 @@ theorem smpi_refines_spec_partial (thresh : Nat) (e : Event) :
   cases e with
   | send m => simp only [mechStep, specStep, get_empty_recvs, takeFirst]
   | post r => simp only [mechStep, specStep, get_empty_sends, takeFirst]
+
+/-- **Refinement, all sizes on one side of the eager threshold — every history.**  If every message and every
+receive buffer is `≥ thresh` (rendezvous side; includes `thresh = 0`, the default, where there is one mailbox) or every
+one is `< thresh` (eager side), the mechanism makes exactly the matches of the MPI spec, in the same order, whatever
+the interleaving of arrivals and posts and whatever the wildcards. -/
+theorem smpi_refines_spec_one_side (thresh : Nat) (h : List Event)
+    (hs : (∀ e ∈ h, thresh ≤ e.size) ∨ (∀ e ∈ h, e.size < thresh)) :
+    (mechRun { thresh := thresh } h).2 = (specRun {} h).2 := by
+  rcases hs with hs | hs
+  · exact one_side_run .large thresh h (Or.inl ⟨rfl, hs⟩) _ _ [] (rel_init .large thresh) rfl (by intro e he; cases he)
+  · exact one_side_run .small thresh h (Or.inr ⟨rfl, hs⟩) _ _ [] (rel_init .small thresh) rfl (by intro e he; cases he)
+
+/-- **Refinement, messages of ANY size — every history.**  Sends sit in both mailboxes (eager ones in the small one,
+rendezvous ones in the large one); if receive buffers are `≥ thresh` and all messages that a receive can match have the
+same (src,tag), the `message_id_` test of `match_recv` makes the receive skip a younger eager message and take the
+oldest one, wherever it is: same matches as the MPI spec. -/
+theorem smpi_refines_spec_key_determined (thresh : Nat) (h : List Event) (hk : KeyDetermined h)
+    (hbuf : ∀ r, Event.post r ∈ h → thresh ≤ r.size) :
+    (mechRun { thresh := thresh } h).2 = (specRun {} h).2 := by
+  by_cases h0 : thresh = 0
+  · subst h0
+    exact smpi_refines_spec_one_side 0 h (Or.inl fun _ _ => Nat.zero_le _)
+  · exact kd_run thresh (by omega) h hk hbuf h _ _ [] (fun e he => he) (rel_init .large thresh) rfl
+      (by intro e he; cases he)
+
+/-- corollary: one tag per source and receives that name their source (MPI_ANY_TAG allowed) — the general form of
+`same_tag_witness_agrees` -/
+theorem smpi_refines_spec_single_tag (thresh : Nat) (h : List Event)
+    (htag : ∀ m1 m2, Event.send m1 ∈ h → Event.send m2 ∈ h → m1.src = m2.src → m1.tag = m2.tag)
+    (hsrc : ∀ r, Event.post r ∈ h → r.src ≠ none) (hbuf : ∀ r, Event.post r ∈ h → thresh ≤ r.size) :
+    (mechRun { thresh := thresh } h).2 = (specRun {} h).2 := by
+  apply smpi_refines_spec_key_determined thresh h _ hbuf
+  intro r m1 m2 hr h1 h2 c1 c2
+  have hs := hsrc r hr
+  have hsrc12 : m1.src = m2.src := by
+    unfold compat at c1 c2
+    cases hrs : r.src with
+    | none => exact absurd hrs hs
+    | some s =>
+      rw [hrs] at c1 c2
+      simp only [Bool.and_eq_true, beq_iff_eq] at c1 c2
+      rw [← c1.1, ← c2.1]
+  exact ⟨hsrc12, htag m1 m2 h1 h2 hsrc12⟩
+
+/-- corollary: no wildcard receive (any number of tags per source, any message sizes) -/
+theorem smpi_refines_spec_no_wildcard (thresh : Nat) (h : List Event)
+    (hnw : ∀ r, Event.post r ∈ h → r.src ≠ none ∧ r.tag ≠ none) (hbuf : ∀ r, Event.post r ∈ h → thresh ≤ r.size) :
+    (mechRun { thresh := thresh } h).2 = (specRun {} h).2 := by
+  apply smpi_refines_spec_key_determined thresh h _ hbuf
+  intro r m1 m2 hr _ _ c1 c2
+  obtain ⟨hs, ht⟩ := hnw r hr
+  unfold compat at c1 c2
+  cases hrs : r.src with
+  | none => exact absurd hrs hs
+  | some s =>
+    cases hrt : r.tag with
+    | none => exact absurd hrt ht
+    | some t =>
+      rw [hrs, hrt] at c1 c2
+      simp only [Bool.and_eq_true, beq_iff_eq] at c1 c2
+      exact ⟨by rw [← c1.1, ← c2.1], by rw [← c1.2, ← c2.2]⟩
+
+/-- the hypothesis `hbuf` of the three theorems above cannot be dropped: a receive whose buffer is below the threshold
+waits in the small mailbox and never sees a rendezvous message (no wildcard, one tag): the spec matches them (and MPI
+then reports MPI_ERR_TRUNCATE), the mechanism never does (finding 3 of NOTES.md; replayed on the library) -/
+theorem smpi_refines_spec_small_buffer_counterexample :
+    let w : List Event :=
+      [.post { rid := 0, src := some 1, tag := some 1, size := 16 }, .send { mid := 0, src := 1, tag := 1, size := 3000 }]
+    (mechRun { thresh := 256 } w).2.length = 0 ∧ ((specRun {} w).2.map fun (r, m) => (r.rid, m.mid)) = [(0, 0)] := by
+  decide
 
 /-! ### non-vacuity: concrete histories satisfying the hypotheses of the two theorems -/
 
@@ -228,5 +207,67 @@ example : (specStep (specRun {} [.post { rid := 0, src := none, tag := some 2, s
     .post { rid := 1, src := none, tag := none, size := 8 }]).1 (.send { mid := 0, src := 3, tag := 1, size := 8 })).2
     = some ({ rid := 1, src := none, tag := none, size := 8 }, { mid := 0, src := 3, tag := 1, size := 8 }) := by
   decide
+
+/-- non-vacuity of `smpi_refines_spec_one_side`: 7 events on the rendezvous side with wildcards, queued receives and
+queued sends; 4 matches -/
+def hOneSide : List Event :=
+  [.post { rid := 0, src := none, tag := some 2, size := 4096 }, .send { mid := 0, src := 1, tag := 1, size := 3000 },
+   .send { mid := 1, src := 1, tag := 2, size := 3000 }, .send { mid := 2, src := 2, tag := 1, size := 5000 },
+   .post { rid := 1, src := some 1, tag := none, size := 4096 }, .post { rid := 2, src := none, tag := none, size := 8192 },
+   .post { rid := 3, src := some 2, tag := some 7, size := 8192 }, .send { mid := 3, src := 2, tag := 7, size := 3000 }]
+
+example : (∀ e ∈ hOneSide, 256 ≤ e.size) ∧
+    ((specRun {} hOneSide).2.map fun (r, m) => (r.rid, m.mid)) = [(0, 1), (1, 0), (2, 2), (3, 3)] := by
+  refine ⟨?_, by decide⟩
+  intro e he
+  simp only [hOneSide, List.mem_cons, List.not_mem_nil, or_false] at he
+  rcases he with rfl | rfl | rfl | rfl | rfl | rfl | rfl | rfl <;> simp [Event.size]
+
+example : ((mechRun { thresh := 256 } hOneSide).2.map fun (r, m) => (r.rid, m.mid)) = [(0, 1), (1, 0), (2, 2), (3, 3)] := by
+  decide
+
+/-- non-vacuity of `smpi_refines_spec_single_tag` / `_key_determined`: threshold 256, messages of one tag per source on
+BOTH sides of the threshold (sends queued in both mailboxes), ANY_TAG receives naming their source, large buffers -/
+def hSingleTag : List Event :=
+  [.send { mid := 0, src := 1, tag := 1, size := 3000 }, .send { mid := 1, src := 1, tag := 1, size := 17 },
+   .send { mid := 2, src := 2, tag := 5, size := 17 }, .send { mid := 3, src := 1, tag := 1, size := 3000 },
+   .post { rid := 0, src := some 1, tag := none, size := 4096 }, .post { rid := 1, src := some 1, tag := some 1, size := 4096 },
+   .post { rid := 2, src := some 2, tag := none, size := 4096 }, .post { rid := 3, src := some 1, tag := none, size := 4096 },
+   .post { rid := 4, src := some 2, tag := some 5, size := 4096 }, .send { mid := 4, src := 2, tag := 5, size := 3000 }]
+
+example : (∀ m1 m2, Event.send m1 ∈ hSingleTag → Event.send m2 ∈ hSingleTag → m1.src = m2.src → m1.tag = m2.tag) ∧
+    (∀ r, Event.post r ∈ hSingleTag → r.src ≠ none) ∧ (∀ r, Event.post r ∈ hSingleTag → 256 ≤ r.size) := by
+  refine ⟨?_, ?_, ?_⟩
+  · intro m1 m2 h1 h2
+    simp only [hSingleTag, List.mem_cons, List.not_mem_nil, or_false, Event.send.injEq, reduceCtorEq, false_or, or_false] at h1 h2
+    rcases h1 with rfl | rfl | rfl | rfl | rfl <;> rcases h2 with rfl | rfl | rfl | rfl | rfl <;> simp
+  · intro r hr
+    simp only [hSingleTag, List.mem_cons, List.not_mem_nil, or_false, Event.post.injEq, reduceCtorEq, false_or, or_false] at hr
+    rcases hr with rfl | rfl | rfl | rfl | rfl <;> simp
+  · intro r hr
+    simp only [hSingleTag, List.mem_cons, List.not_mem_nil, or_false, Event.post.injEq, reduceCtorEq, false_or, or_false] at hr
+    rcases hr with rfl | rfl | rfl | rfl | rfl <;> simp
+
+/-- on this history the mechanism really uses both mailboxes and the ids restore the order: 5 matches, as in the spec -/
+example : ((mechRun { thresh := 256 } hSingleTag).2.map fun (r, m) => (r.rid, m.mid)) = [(0, 0), (1, 1), (2, 2), (3, 3), (4, 4)] ∧
+    (mechRun { thresh := 256 } (hSingleTag.take 4)).1.small.sends.length = 2 ∧
+    (mechRun { thresh := 256 } (hSingleTag.take 4)).1.large.sends.length = 2 := by
+  decide
+
+/-- non-vacuity of `smpi_refines_spec_no_wildcard`: two tags per source, sizes on both sides -/
+def hNoWild : List Event :=
+  [.send { mid := 0, src := 1, tag := 1, size := 3000 }, .send { mid := 1, src := 1, tag := 2, size := 17 },
+   .send { mid := 2, src := 1, tag := 1, size := 17 }, .post { rid := 0, src := some 1, tag := some 1, size := 4096 },
+   .post { rid := 1, src := some 1, tag := some 1, size := 4096 }, .post { rid := 2, src := some 1, tag := some 2, size := 4096 }]
+
+example : (∀ r, Event.post r ∈ hNoWild → r.src ≠ none ∧ r.tag ≠ none) ∧ (∀ r, Event.post r ∈ hNoWild → 256 ≤ r.size) ∧
+    ((mechRun { thresh := 256 } hNoWild).2.map fun (r, m) => (r.rid, m.mid)) = [(0, 0), (1, 2), (2, 1)] := by
+  refine ⟨?_, ?_, by decide⟩
+  · intro r hr
+    simp only [hNoWild, List.mem_cons, List.not_mem_nil, or_false, Event.post.injEq, reduceCtorEq, false_or, or_false] at hr
+    rcases hr with rfl | rfl | rfl <;> simp
+  · intro r hr
+    simp only [hNoWild, List.mem_cons, List.not_mem_nil, or_false, Event.post.injEq, reduceCtorEq, false_or, or_false] at hr
+    rcases hr with rfl | rfl | rfl <;> simp
 
 end SgVerif.C28
